@@ -272,10 +272,20 @@ theorem effective_perm_dependent :
     themselves never name two builtin features in one feature). -/
 theorem gather_perm_invariant_of_at_most_one_flag (π π' : List Name) (inp : Inputs)
     (hp : π.Perm π') (hnd : π.Nodup) (hπ : ∀ c ∈ π, c ∈ builtinNames)
-    (hS : ∀ g, finalConfig inp = some g → SectionsAtMostOne g (keysOf (builtinsFor inp) π)) :
+    (hS : ∀ g, finalConfig inp = some g → SectionsAtMostOneB g (keysOf (builtinsFor inp) π)) :
     gatherFeatures π inp = gatherFeatures π' inp ∧ ∀ o, effective π inp o = effective π' inp o := by
-  have hg := gatherFeatures_perm hp hnd inp (tablesAtMostOne_builtinsFor inp π hπ) hS
+  have hg := gatherFeatures_perm hp hnd inp (tablesAtMostOne_builtinsFor inp π hπ)
+    (fun g h => sectionsAtMostOne_of_bounded g _ (hS g h))
   exact ⟨hg, fun o => by unfold effective; rw [hg]⟩
+
+-- `sample` has one builtin flag (`[delta "b"] line-numbers = true`): its result is the same for
+-- every enumeration order; `w13` (two flags in `[delta]`) fails the hypothesis
+example : sortedNames.Perm rawFirst ∧ sortedNames.Nodup ∧ (∀ c ∈ sortedNames, c ∈ builtinNames) ∧
+    SectionsAtMostOneB sampleCfg (keysOf (builtinsFor sample) sortedNames) := by decide
+example : ¬ SectionsAtMostOneB
+    { enabled := true, params := [], file := { main := [("raw", "true"), ("diff-so-fancy", "true")],
+                                                sections := [], other := [] } }
+    (keysOf (builtinsFor w13) sortedNames) := by decide
 
 /-- … and with a fixed enumeration order (the proposed repair: iterate the sorted names) the
     order is no longer an input at all. -/
@@ -283,5 +293,7 @@ theorem gather_deterministic_of_fixed_order (order : List Name) (π π' : List N
     (h : π = order) (h' : π' = order) :
     gatherFeatures π inp = gatherFeatures π' inp ∧ ∀ o, effective π inp o = effective π' inp o := by
   subst h; subst h'; exact ⟨rfl, fun _ => rfl⟩
+
+example : gatherFeatures sortedNames w13 = ["raw", "diff-so-fancy"] := by decide
 
 end C13
